@@ -257,6 +257,8 @@ type scenario struct {
 	Conflicts int `json:"conflicts"`
 	// LongLived: all passes of a history run in one operator process (states rebuilt by path replay)
 	LongLived bool `json:"longLived"`
+	// Unarchives: budget of the user setting the archived ObjectSet back to Active
+	Unarchives int `json:"unarchives"`
 }
 
 func (sc scenario) name() string {
@@ -274,6 +276,14 @@ func userEvents(w *world.World, sc scenario, os string) []world.Event {
 		evs = append(evs, world.Event{Name: "user:archive:" + os, Apply: func(w *world.World) *world.Pass {
 			w.Budget["archive"]--
 			osw.SetLifecycle(w, os, "Archived")
+			return nil
+		}})
+	}
+	if sc.Archive && w.Budget["unarchive"] > 0 && osw.Lifecycle(o.Content) == "Archived" {
+		// the API allows setting an archived ObjectSet back to Active
+		evs = append(evs, world.Event{Name: "user:unarchive:" + os, Apply: func(w *world.World) *world.Pass {
+			w.Budget["unarchive"]--
+			osw.SetLifecycle(w, os, "Active")
 			return nil
 		}})
 	}
@@ -320,6 +330,7 @@ func system(sc scenario) *world.System {
 			}
 			w.Budget["user-pause"] = sc.Pauses
 			w.Budget["archive"] = 1
+			w.Budget["unarchive"] = sc.Unarchives
 			w.Budget["delete"] = 1
 			w.Budget["restart"] = sc.Restarts
 			w.Budget["conflict"] = sc.Conflicts
@@ -362,6 +373,7 @@ func scenarios(quick bool) []scenario {
 		{Kind: "chain", N: 1, Classes: two, Pauses: 1, Delete: true},
 		// archival interrupted by a crash between any two calls (e.g. finalizer removed, status not yet written)
 		{Kind: "single", N: 2, Mask: 0, Classes: []string{"ready"}, Archive: true, Restarts: 1, Conflicts: 1},
+		{Kind: "single", N: 2, Mask: 0, Classes: []string{"ready"}, Archive: true, Unarchives: 1},
 		{Kind: "takeover", N: 1, Classes: []string{"ready"}, Archive: true, Restarts: 1, Conflicts: 1},
 		{Kind: "sliced", N: 2, Mask: 0, Classes: two, Archive: true},
 		{Kind: "chain", N: 1, Classes: []string{"ready"}, Archive: true, LongLived: true},
@@ -381,7 +393,7 @@ func scenarios(quick bool) []scenario {
 
 func run(o checks.Opts) *report.Report {
 	rep := report.New("C06", "bfs")
-	rep.Rule = "explicit-state BFS: reconcile(ObjectSets, ObjectSetPhases), workload status changes, user pause/unpause/archive/delete, garbage collector, operator crash before request i, a foreign write landing before write i of a pass (update conflict); two systems run all passes of a history in one long-lived operator process; systems: a sliced ObjectSet whose lagging cache may hide a slice from a pass, single ObjectSet (2-3 phases, local/delegated) a two-revision handover chain r1{a,b}->r2{a,c}, and a complete takeover r1{a}->r2{a,c} (r1's archival teardown finishes in its first pass) with crashes; monitor on every status write of the ObjectSet controller"
+	rep.Rule = "explicit-state BFS: reconcile(ObjectSets, ObjectSetPhases), workload status changes, user pause/unpause/archive/un-archive/delete, garbage collector, operator crash before request i, a foreign write landing before write i of a pass (update conflict); two systems run all passes of a history in one long-lived operator process; systems: a sliced ObjectSet whose lagging cache may hide a slice from a pass, single ObjectSet (2-3 phases, local/delegated) a two-revision handover chain r1{a,b}->r2{a,c}, and a complete takeover r1{a}->r2{a,c} (r1's archival teardown finishes in its first pass) with crashes; monitor on every status write of the ObjectSet controller"
 	scs := scenarios(o.Quick())
 	rep.Bounds["systems"] = len(scs)
 	for i, sc := range scs {
@@ -417,9 +429,9 @@ func init() {
 		},
 		Subs: []*checks.Sub{{Name: "bfs", Shards: func(t string) int {
 			if t == "thorough" {
-				return 15
+				return 16
 			}
-			return 10
+			return 11
 		}, Run: run, Replay: replay, Parallel: true}},
 	})
 }
